@@ -416,13 +416,14 @@ Proof. exact w_newline_inside_declaration. Qed.
 Print Assumptions c10_separator_comment_independence_refuted.
 
 (** the two other ways it failed are repaired: a comment after the keyword prefix is not part of the prefix
-    (C10-F17), and constant-map entries may be separated by ';' (C10-F18) *)
+    (C10-F17), and constant-map entries may be separated by ';' (C10-F18) or by nothing (C10-F23) *)
 Theorem c10_separator_comment_independence_instances :
   (exists f, parse_idl (idl "scope S prefix /* topic */ foo.{user}.bar {}") = POk f
              /\ map (fun s => (p_string (sc_prefix s), p_vars (sc_prefix s))) (fr_scopes f)
                 = [(bytes_of_string "foo.{user}.bar", [bytes_of_string "user"])])
-  /\ (exists f, parse_idl (idl "const map<i32,i32> m = {1:2; 3:4, 5:6;}") = POk f
-                /\ map c_value (fr_constants f) = [CMap [(CInt 1, CInt 2); (CInt 3, CInt 4); (CInt 5, CInt 6)]]).
+  /\ (exists f, parse_idl (idl "const map<i32,i32> m = {1:2; 3:4, 5:6 7:8;}") = POk f
+                /\ map c_value (fr_constants f)
+                   = [CMap [(CInt 1, CInt 2); (CInt 3, CInt 4); (CInt 5, CInt 6); (CInt 7, CInt 8)]]).
 Proof. exact (conj w_comment_in_prefix w_const_map_semicolon). Qed.
 Print Assumptions c10_separator_comment_independence_instances.
 
